@@ -18,7 +18,7 @@ class Property(Base):
 
     def regen(self):
         changed, info = gen_nanbox.generate(vf.REPO, os.path.join(vf.COQ, "theories/Gen/NanBoxGen.v"))
-        t8 = gen_rs2v.generate(vf.REPO, "NanBoxFnGen")
+        t8 = [gen_rs2v.generate(vf.REPO, n) for n in ("NanBoxFnGen", "ApiLenGen")]
         return {"consts": info["consts"], "tags": info["Tag"], "error_codes": info["ErrorCode"], "T8": t8}
 
     def property_failure(self, block, I, S, M):
